@@ -5,6 +5,7 @@ import (
 	"fmt"
 	"math/big"
 	mrand "math/rand"
+	"runtime"
 	"testing"
 	"time"
 
@@ -215,6 +216,9 @@ func ExecMine(t *testing.T, pa any, col *kernel.Collector) []kernel.Violation {
 }
 
 func execMine(p *MinePlan, col *kernel.Collector) []kernel.Violation {
+	// worker, agent, pool and chain goroutines really race here: one P, so that which of them
+	// runs next is the runtime's deterministic run queue and not the machine's parallelism
+	defer runtime.GOMAXPROCS(runtime.GOMAXPROCS(1))
 	simStart := time.Now() // the bubble's clock: elapsed = simulated time
 	defer func() { col.AddSim(time.Since(simStart)) }()
 	ResetCrit()
